@@ -305,14 +305,63 @@ class EngineBase:
         st.clock = st.clock + 1
         st.assume(birth(r) == st.clock)
         st.new_objs = st.new_objs + ((r, clsname),)
+        # ghost fields start from their declared defaults
+        for n in self.mro_names(clsname):
+            m = self.reg.models.get(n)
+            if m is None:
+                continue
+            for f, dv in m.ghost_defaults.items():
+                key, ty, _g = self.field_decl(n, f)
+                self.write_field(st, r, key, ty, PyConst(dv) if not isinstance(dv, (int, float)) or isinstance(dv, bool) else (mk_int(dv) if isinstance(dv, int) else mk_real(dv)))
         return Val(REF(clsname), r)
 
-    def born_before(self, arr, bound):
-        """axiom for an initial heap array: every reference stored in it was born no later than `bound`"""
+    def mro_names(self, cn):
+        try:
+            ci = self.class_info(cn)
+        except KeyError:
+            ci = None
+        return [c.name for c in self.repo.mro(ci)] if ci is not None else [cn]
+
+    def key_type(self, key):
+        base = key.split("#")[0]
+        c, _, f = base.partition(".")
+        m = self.reg.models.get(c)
+        if m is None:
+            return None
+        return m.fields.get(f, m.ghost.get(f))
+
+    def typed_refs(self, term, ty):
+        """(ref term, class) pairs for the reference components of a value of declared type ty"""
+        if ty is None:
+            return []
+        if ty[0] == "ref":
+            return [(term, ty[1])] if ty[1] is not None else []
+        if ty[0] == "tup":
+            dt = tup_dt(ty)
+            out = []
+            for i, t in enumerate(ty[1]):
+                out += self.typed_refs(dt.accessor(0, i)(term), t)
+            return out
+        return []
+
+    def born_before(self, arr, bound, key=None):
+        """axioms for an initial heap array: every reference stored in it was born no later than `bound`
+        and has the declared class"""
         x = z3.Const("x!bb", RefS)
         i = z3.Const("i!bb", z3.IntSort())
         rng = arr.sort().range()
         out = []
+        ty = self.key_type(key) if key else None
+        if ty is not None and key is not None and not key.endswith(("#n", "#none")):
+            if ty[0] == "list" or (ty[0] == "opt" and ty[1][0] == "list"):
+                ety = ty[1] if ty[0] == "list" else ty[1][1]
+                el = z3.Select(z3.Select(arr, x), i)
+                for rt, cn in self.typed_refs(el, ety):
+                    out.append(z3.ForAll([x, i], z3.Or(rt == NULL, subclass(cls_of(rt), cls_const(cn))), patterns=[el]))
+            elif ty[0] in ("ref", "tup"):
+                el = z3.Select(arr, x)
+                for rt, cn in self.typed_refs(el, ty):
+                    out.append(z3.ForAll([x], z3.Or(rt == NULL, subclass(cls_of(rt), cls_const(cn))), patterns=[el]))
         if isinstance(rng, z3.ArraySortRef):
             if rng.domain() == z3.IntSort():
                 el = z3.Select(z3.Select(arr, x), i)
